@@ -105,7 +105,7 @@ def expand(segs):
         if g["k"] == "lit":
             outs = [o + bytes(g["s"]).decode() for o in outs]
         else:
-            outs = [o + str(v) for o in outs for v in ([0, g["n"] - 1, g["n"], g["n"] + 1])]
+            outs = [o + str(v) for o in outs for v in ([0, g["n"] - 1, g["n"], g["n"] + 1])] + [o + "0" * k + str(g["n"] - 1) for o in outs[:2] for k in (1, 6)]     # leading zeros (the model reads indices of up to nine digits)
     return outs
 
 
